@@ -62,7 +62,6 @@ const (
 //	E reply, no items  N reply, nil message        O reply, wrong oneof     G undecodable reply bytes
 //	B reply whose block field is left nil (on the wire an empty block, i.e. height 0)
 //	W reply with a block of another height (outside the requested range)
-const c35Codes = "SLRTENOBGW"
 
 func c35Serves(b byte) bool { return b == 'S' || b == 'L' }
 
@@ -725,9 +724,9 @@ func c35Pinned(t *testing.T, test, id string, c c35Case, what string) {
 
 // Minimal case of C35-wrong-height-block-accepted: one height, the preferred peer answers with a block of another
 // height, the second peer serves. The height must still be delivered.
-func TestKnown_WrongHeightBlockAccepted(t *testing.T) {
+func TestKnown_C35WrongHeightBlockAccepted(t *testing.T) {
 	defer lib.Flush()
-	c35Pinned(t, "TestKnown_WrongHeightBlockAccepted", c35FindWrongHeight, c35Case{N: 1, Peers: []c35Peer{
+	c35Pinned(t, "TestKnown_C35WrongHeightBlockAccepted", c35FindWrongHeight, c35Case{N: 1, Peers: []c35Peer{
 		{LatencyMs: 10, Claim: 1, Beh: "W"}, {LatencyMs: 20, Claim: 1, Beh: "S"}}},
 		"a reply carrying a block of another height is taken as success: the wrong block is handed to the blockchain and the requested height, which another given peer serves, is never delivered")
 }
@@ -736,9 +735,9 @@ func TestKnown_WrongHeightBlockAccepted(t *testing.T) {
 // start on A; A fails h0 first (list of h0 becomes B,C - the shared array now reads B,C,C), h0 moves on to B, then A
 // fails h1. Removing A for h1 uses A's recorded index 0 in the shifted array and removes B instead: h1 is left with
 // C,C, asks C, fails, removes one C, asks C again. Event gates make the order deterministic.
-func TestKnown_StaleIndexRemovesWrongPeer(t *testing.T) {
+func TestKnown_C35StaleIndexRemovesWrongPeer(t *testing.T) {
 	defer lib.Flush()
-	c35Pinned(t, "TestKnown_StaleIndexRemovesWrongPeer", c35FindStaleIndex, c35Case{N: 2, Peers: []c35Peer{
+	c35Pinned(t, "TestKnown_C35StaleIndexRemovesWrongPeer", c35FindStaleIndex, c35Case{N: 2, Peers: []c35Peer{
 		{LatencyMs: 10, Claim: 2, Beh: "RR"}, {LatencyMs: 20, Claim: 2, Beh: "SS"}, {LatencyMs: 30, Claim: 2, Beh: "SR"}},
 		Gates: []c35Gate{{Peer: 0, H: 0, AfterPeer: 0, AfterH: 1}, {Peer: 0, H: 1, AfterPeer: 1, AfterH: 0}}},
 		"after a concurrent removal for another height, Remove(task) deletes the entry at the peer's stale index: an innocent peer is dropped from this height's list and the peer that just failed stays in it and is asked for the same height again")
@@ -746,8 +745,8 @@ func TestKnown_StaleIndexRemovesWrongPeer(t *testing.T) {
 
 // Regression for the termination clause on the polling path: the only peer that claims height h1 refuses it, the
 // other peer claims one height only. The task polls (50 x 400 ms per pass) and must then give up and return.
-func TestRegress_StarvedHeightTerminates(t *testing.T) {
+func TestRegress_C35StarvedHeightTerminates(t *testing.T) {
 	defer lib.Flush()
-	c35Pinned(t, "TestRegress_StarvedHeightTerminates", "", c35Case{N: 2, Peers: []c35Peer{
+	c35Pinned(t, "TestRegress_C35StarvedHeightTerminates", "", c35Case{N: 2, Peers: []c35Peer{
 		{LatencyMs: 10, Claim: 2, Beh: "SR"}, {LatencyMs: 20, Claim: 1, Beh: "SS"}}}, "")
 }
